@@ -173,7 +173,9 @@ impl PatternFormatter {
 
   /// Applies left or right padding to the given content.
   fn apply_padding(&self, buf: &mut String, content: &str, padding: i32) {
-    let width = padding.abs() as usize;
+    // `unsigned_abs` cannot overflow on i32::MIN, and std's formatting machinery
+    // panics on a runtime width above u16::MAX, so the width is capped there.
+    let width = (padding.unsigned_abs() as usize).min(u16::MAX as usize);
     if content.len() >= width {
       buf.push_str(content);
       return;
